@@ -46,7 +46,7 @@ func init() {
 		MinEvals:        floor(200000, 3000000),
 		MinDistinct:     floor(8000, 150000),
 		RequiredCells: func(string) []string {
-			return []string{"mut/bitflip", "mut/delete", "mut/insert", "mut/substitute", "mut/field-rewrite", "mut/sig-other-key", "mut/sig-transplant", "mut/sig-truncated", "mut/sig-zeroed", "mut/sig-junk", "mut/sig-junk-on-rewritten-payload", "mut/sig-extended", "mut/sig-by-did-prefix-colliding-key", "mut/header-swap", "mut/header-swap-resigned", "mut/own-header-variant-resigned", "mut/signed-over-dagjson-text", "mut/genuine-envelope-spliced-into-nonce", "mut/extra-key-resigned", "mut/extra-key-after-tag-resigned", "mut/extra-key-before-tag-resigned", "mut/second-payload-resigned", "mut/iss-key-bytes-under-other-multicodec-resigned", "mut/optional-principal-empty-resigned", "mut/other-tag-resigned", "mut/json-field-rewrite", "mut/json-char-edit",
+			return []string{"mut/bitflip", "mut/delete", "mut/insert", "mut/substitute", "mut/field-rewrite", "mut/sig-other-key", "mut/sig-transplant", "mut/sig-truncated", "mut/sig-zeroed", "mut/sig-junk", "mut/sig-junk-on-rewritten-payload", "mut/sig-extended", "mut/sig-by-did-prefix-colliding-key", "mut/header-swap", "mut/header-swap-resigned", "mut/own-header-variant-resigned", "mut/signed-over-dagjson-text", "mut/genuine-envelope-spliced-into-nonce", "mut/extra-key-resigned", "mut/extra-key-after-tag-resigned", "mut/extra-key-before-tag-resigned", "mut/second-payload-resigned", "mut/iss-key-bytes-under-other-multicodec-resigned", "mut/optional-principal-empty-resigned", "mut/iss-as-did-url-resigned", "mut/other-tag-resigned", "mut/json-field-rewrite", "mut/json-char-edit",
 				"concurrent", "concurrent/genuine", "concurrent/forged", "concurrent/large", "outcome/rejected", "outcome/accepted-same-content", "base/dlg", "base/inv", "base/ed25519", "base/non-ed25519"}
 		},
 	})
@@ -762,6 +762,33 @@ func runC06(w *mon.W) {
 						if enc, err := ref.EncodeDagJson(re); err == nil {
 							c06Offer(w, b, "iss-key-bytes-under-other-multicodec-resigned", enc, "dagjson", decs)
 						}
+					}
+				}
+			}
+		}
+		// 6d. the issuer written as a DID URL - the issuer's DID followed by a fragment naming ANOTHER
+		// key (signed by that other key), by its own key, by a query or a path (signed by the issuer)
+		if mine() {
+			att := c20ForeignKey(def.iss)
+			mb := func(p *gen.Principal) string { return strings.TrimPrefix(p.DID.String(), "did:key:") }
+			for _, v := range []struct {
+				iss    string
+				signer *gen.Principal
+			}{
+				{def.iss.DID.String() + "#" + mb(att), att},
+				{def.iss.DID.String() + "#" + mb(def.iss), def.iss},
+				{def.iss.DID.String() + "?versionId=1", def.iss},
+				{def.iss.DID.String() + "/path", def.iss},
+				{def.iss.DID.String() + "#" + mb(att), def.iss},
+			} {
+				val := ref.Str(v.iss)
+				p := withField(b.info.Payload, "iss", &val)
+				if re, err := ref.SignEnvelope(v.signer.Priv, nil, b.info.Tag, p); err == nil {
+					if enc, err := ref.EncodeDagCbor(re); err == nil {
+						c06Offer(w, b, "iss-as-did-url-resigned", enc, "dagcbor", decs)
+					}
+					if enc, err := ref.EncodeDagJson(re); err == nil {
+						c06Offer(w, b, "iss-as-did-url-resigned", enc, "dagjson", decs)
 					}
 				}
 			}
